@@ -123,15 +123,18 @@ func (server *Server) Start() error {
 
 // Stop stops the server.
 func (server *Server) Stop() error {
-	if err := server.ConnManager.Stop(); err != nil {
-		return err
-	}
+	// The listeners are closed even if a connection could not be closed cleanly
+	// (e.g. a TLS peer which is already gone) so that the server is never left half stopped.
+	connErr := server.ConnManager.Stop()
 	verifYield("stop.mid", server)
 
 	if err := server.close(); err != nil {
-		return err
+		return errors.Join(connErr, err)
 	}
 	verifYield("stop.closed", server)
+	if connErr != nil {
+		return connErr
+	}
 
 	if server.IsPortEnabled() {
 		addr := net.JoinHostPort(server.Addr, strconv.Itoa(server.ConfigPort()))
